@@ -1052,7 +1052,7 @@ _POW_SQ = '''        square = self.array
             square = matmul(square, rest)
         return type(self)(square, copy=False)'''
 V("powers by repeated squaring that keep only the last odd factor", "C06", TRANS, _POW_OLD, _POW_SQ % "square", "E19.act", "Tensor.__apply__", quick=True)
-V("twin: powers by repeated squaring", "C06", TRANS, _POW_OLD, _POW_SQ % "square if rest is None else matmul(rest, square)", "silent", quick=True)
+V("twin: powers by repeated squaring", "C06", TRANS, _POW_OLD, _POW_SQ % "square if rest is None else matmul(rest, square)", "silent")
 
 
 # ------------------------------------------------------------------------------------------------ np.vdot always flattens (E6.K9; seed R13_C10a)
